@@ -63,7 +63,7 @@ def h_index(shape):
         "        kani::cover!(true, \"reach\");",
         "        let got = pos_to_byte_index(s, Position::new(line, chr));",
         "        let (want, exact) = __ref_index(s.as_bytes(), line, chr);",
-        "        kani::cover!(got == want && want > 0 && want < s.len(), \"reach-inner\");" if n >= 2 else "",
+        "        kani::cover!(got == want && want > 0 && want < s.len(), \"reach-inner\");" if len(shape) >= 2 else "",
         "        assert!(got <= s.len(), \"inrange: index <= len\");",
         "        assert!(s.is_char_boundary(got), \"boundary: index is a char boundary (else String::replace_range panics)\");",
         "        assert!(!exact || got == want, \"lsp: index equals the LSP 3.17 reference (UTF-16 columns, clamping)\");",
@@ -73,7 +73,7 @@ def h_index(shape):
                    asserts={"inrange": "index <= len for every position",
                             "boundary": "index is a char boundary for every position",
                             "lsp": "index equals the LSP reference for every position not inside a surrogate pair"},
-                   covers=["reach"] + (["reach-inner"] if n >= 2 else []),
+                   covers=["reach"] + (["reach-inner"] if len(shape) >= 2 else []),
                    meta=dict(shape="document width pattern [%s] (%d bytes)" % (shape, n),
                              symbolic=["every code point of each class (A: any ASCII incl. \\n, \\r; 2/3/4: any scalar value of that UTF-8 width)",
                                        "Position.line: u32", "Position.character: u32"],
@@ -142,7 +142,7 @@ def h_step(shape, ins):
 QUICK_SHAPES = ["", "A", "2", "3", "4"] + ["".join(p) for p in itertools.product("A234", repeat=2)] + \
     ["AAA", "A4A", "4AA", "AA4", "A2A", "A3A", "2A3", "44A", "A42", "3A4", "AAAA", "A4AA", "AAAAA", "AA4A3"]
 QUICK_MONO = ["AA", "A4", "4A", "AAA", "A4A", "A2A"]
-QUICK_STEP = [("AA", True), ("A4", False)]
+QUICK_STEP = []     # the whole-step harnesses (String::replace_range on a real String) need > 300 s each: thorough tier only
 
 
 def shapes_for(tier, seed):
